@@ -344,6 +344,8 @@ def run_tok_stream(ctx: Ctx, T, exe, stream: str, strings, chunk=150000):
             if r:
                 fail(ctx, r[0], {"kind": "string", "cps": [ord(c) for c in s]}, r[1])
             ctx.dist("result_" + (line.split(" ")[0] if line.startswith("OK") else line[1:]))
+            n = len(s)
+            ctx.dist("length_" + (str(n) if n <= 5 else "6-10" if n <= 10 else "11-20" if n <= 20 else "21-40" if n <= 40 else "41+"))
         if exe:
             ctx.compare(stream, part, reqs, outs, exe,
                         nontrivial=lambda case, out: out.startswith("OK ") and "|" in out)
